@@ -1038,7 +1038,7 @@ impl Property for C18 {
     type Case = Case;
 
     fn fuzz(&self) -> Option<FuzzSpec> {
-        Some(FuzzSpec { target: "c18", jobs: 8, runs: 1_000_000, max_len: 96, seeds: 300 })
+        Some(FuzzSpec { target: "c18", jobs: 8, runs: 40_000, max_len: 96, seeds: 300 })
     }
 
     /// byte 0 selects the parser (key / chord / key name) or, from 3 on, a registration
@@ -1056,7 +1056,7 @@ impl Property for C18 {
                     (0..len).map(|i| ((b >> (2 + 2 * (i % 3))) & 3) as K).collect()
                 };
                 let mut ops = Vec::new();
-                for (i, b) in rest.iter().take(24).enumerate() {
+                for (i, b) in rest.iter().take(12).enumerate() {
                     if k & 0x80 != 0 && i % 3 == 2 {
                         ops.push(Op::Override(vec![chord(*b), chord(b.rotate_left(3))]));
                     } else {
